@@ -8,7 +8,7 @@ git reset -q --hard HEAD; git clean -fdq
 git apply "$patch" || { echo "PATCH-NO-APPLY $patch"; exit 2; }
 v=$(mktemp -d /tmp/rfv.XXXX); cp /verif/known_findings.json /verif/properties.jsonl $v/
 bad=0
-for i in 01 02 03 04 05 06 07 08 09 10 11 12 13 14 15 16 17 18 19 20; do
+for i in ${PROPS:-01 02 03 04 05 06 07 08 09 10 11 12 13 14 15 16 17 18 19 20}; do
   o=$(${CHK:-/verif/bin/storagecheck} -prop C$i -tier quick -repo $wt -verif $v 2>&1); rc=$?
   if [ $rc -ne 0 ]; then bad=1; echo "FALSE-ALARM? $patch C$i rc=$rc"; echo "$o" | grep -E -A2 '^(VIOLATED|UNDECIDED)' | cut -c1-500 | head -30; fi
 done
